@@ -1,6 +1,10 @@
 mod alphabet;
 mod cfg;
 mod checks;
+mod grammar;
+mod layout;
+mod oracles2;
+mod progs;
 mod oracles;
 mod refscan;
 mod runner;
@@ -124,6 +128,7 @@ fn main() {
             let v: Value = serde_json::from_str(&text).expect("parse replay file");
             let case = v.get("case").cloned().unwrap_or(v);
             runner::install_panic_hook();
+            runner::install_log_observer();
             let mut ctx = runner::Ctx::new("replay");
             let res = runner::guarded(|| checks::replay(&case, &mut ctx));
             match res {
@@ -144,6 +149,25 @@ fn main() {
                 std::process::exit(1);
             }
             println!("REPLAY: no violation");
+        }
+        "gen" => {
+            let d: usize = args[2].parse().unwrap();
+            let g = grammar::Grammar::load(d);
+            let nt = g.nt(args.get(4).map(|s| s.as_str()).unwrap_or("Program"));
+            let n = g.count_upto(nt, d);
+            println!("{} derivations with <= {} deviations", n, d);
+            if let Some(i) = args.get(3) {
+                let step: u64 = i.parse().unwrap();
+                let mut k = 0;
+                while k < n {
+                    let toks = g.nth_upto(nt, d, k);
+                    let text = grammar::render_flat(&toks);
+                    println!("--- {k}\n{text}");
+                    let out = cfg::DEFAULT.formatter().format(&text, pasfmt_core::prelude::FileOptions::new());
+                    println!(">>>\n{out}");
+                    k += step;
+                }
+            }
         }
         "lex" => {
             let text = std::fs::read_to_string(&args[2]).expect("read");
